@@ -15,7 +15,8 @@ import (
 	"sort"
 	"strconv"
 	"strings"
-	"sync/atomic"
+	"sync"
+	"syscall"
 	"time"
 
 	"github.com/tetratelabs/wazero"
@@ -192,14 +193,31 @@ func buildInput(ic *inCase, seeds []seedFile) (bin []byte, ops []string, wgenFS 
 // ---- sentinel: aborts the process when a compile exceeds its allocation bound
 // or a step exceeds its wall-clock budget -------------------------------------------
 
+// The sentinel state is guarded by sMu: the sentinel decides and exits inside
+// the critical section and arm/disarm take the same lock, so the process can
+// never be ended on behalf of a step that has already been disarmed (which
+// would attribute the death to a later case).
 var (
-	sArmed    atomic.Int32
-	sBase     atomic.Uint64
-	sLimit    atomic.Uint64 // 0 = no allocation limit
-	sDeadline atomic.Int64  // unix nanos, 0 = none
-	sPhase    atomic.Value  // string
+	sMu       sync.Mutex
+	sArmed    bool
+	sBase     uint64
+	sLimit    uint64 // 0 = no allocation limit
+	sDeadline int64  // process CPU time (ns) at which the step is out of budget, 0 = none
+	sWallDl   int64  // unix nanos: wall-clock fallback (8x the budget) for a step that blocks without burning CPU
+	sPhase    string
 	sStarted  bool
 )
+
+// cpuNanos is the CPU time (user+system) this process has consumed: step
+// budgets are counted in it so that a loaded machine does not turn a slow
+// step into a timeout.
+func cpuNanos() int64 {
+	var ru syscall.Rusage
+	if syscall.Getrusage(syscall.RUSAGE_SELF, &ru) != nil {
+		return 0
+	}
+	return ru.Utime.Nano() + ru.Stime.Nano()
+}
 
 func heapAllocs(s []metrics.Sample) uint64 {
 	metrics.Read(s)
@@ -211,30 +229,24 @@ func startSentinel() {
 		return
 	}
 	sStarted = true
-	sPhase.Store("")
 	go func() {
 		s := []metrics.Sample{{Name: "/gc/heap/allocs:bytes"}}
 		for {
 			time.Sleep(2 * time.Millisecond)
-			if sArmed.Load() == 0 {
-				continue
-			}
-			if lim := sLimit.Load(); lim != 0 {
-				if a := heapAllocs(s); a > sBase.Load() && a-sBase.Load() > lim {
-					if sArmed.Load() == 0 {
-						continue
+			sMu.Lock()
+			if sArmed {
+				if sLimit != 0 {
+					if a := heapAllocs(s); a > sBase && a-sBase > sLimit {
+						fmt.Fprintf(os.Stderr, "\nC03-ABORT kind=alloc phase=%s alloc=%d limit=%d\n", sPhase, a-sBase, sLimit)
+						os.Exit(9)
 					}
-					fmt.Fprintf(os.Stderr, "\nC03-ABORT kind=alloc phase=%s alloc=%d limit=%d\n", sPhase.Load(), a-sBase.Load(), lim)
-					os.Exit(9)
+				}
+				if sDeadline != 0 && (cpuNanos() > sDeadline || time.Now().UnixNano() > sWallDl) {
+					fmt.Fprintf(os.Stderr, "\nC03-ABORT kind=timeout phase=%s\n", sPhase)
+					os.Exit(8)
 				}
 			}
-			if d := sDeadline.Load(); d != 0 && time.Now().UnixNano() > d {
-				if sArmed.Load() == 0 {
-					continue
-				}
-				fmt.Fprintf(os.Stderr, "\nC03-ABORT kind=timeout phase=%s\n", sPhase.Load())
-				os.Exit(8)
-			}
+			sMu.Unlock()
 		}
 	}()
 }
@@ -242,18 +254,24 @@ func startSentinel() {
 var armSample = []metrics.Sample{{Name: "/gc/heap/allocs:bytes"}}
 
 func arm(phase string, allocLimit uint64, budget time.Duration) {
-	sPhase.Store(phase)
-	sBase.Store(heapAllocs(armSample))
-	sLimit.Store(allocLimit)
+	sMu.Lock()
+	sPhase = phase
+	sBase = heapAllocs(armSample)
+	sLimit = allocLimit
+	sDeadline = 0
 	if budget > 0 {
-		sDeadline.Store(time.Now().Add(budget).UnixNano())
-	} else {
-		sDeadline.Store(0)
+		sDeadline = cpuNanos() + int64(budget)
+		sWallDl = time.Now().Add(8 * budget).UnixNano()
 	}
-	sArmed.Store(1)
+	sArmed = true
+	sMu.Unlock()
 }
 
-func disarm() { sArmed.Store(0) }
+func disarm() {
+	sMu.Lock()
+	sArmed = false
+	sMu.Unlock()
+}
 
 // ---- child state -----------------------------------------------------------------
 
@@ -269,11 +287,23 @@ func (b *bounds) limit(n, eng int) uint64 {
 	return uint64(b.A[eng]*float64(n) + b.B[eng])
 }
 
+// rejectedLimit bounds the compile of an input that is rejected: it never reached an
+// engine, so it may not cost more than an accepted input of that size is allowed to
+// cost on the cheaper engine.
+func (b *bounds) rejectedLimit(n int) uint64 {
+	l0, l1 := b.limit(n, 0), b.limit(n, 1)
+	if l1 < l0 {
+		return l1
+	}
+	return l0
+}
+
 type childState struct {
 	seeds    []seedFile
 	rts      [nCombo]wazero.Runtime
 	bnd      bounds
-	caseBudg time.Duration
+	caseBudg time.Duration // wall-clock budget of one compile before it becomes a watchdog candidate
+	execBudg time.Duration // wall-clock budget of one instantiate+calls step (its context deadline is execDl)
 	execDl   time.Duration
 }
 
@@ -283,7 +313,7 @@ func childInit() *childState {
 	if cs != nil {
 		return cs
 	}
-	s := &childState{caseBudg: 25 * time.Second, execDl: 120 * time.Millisecond}
+	s := &childState{caseBudg: 10 * time.Second, execBudg: 4 * time.Second, execDl: 120 * time.Millisecond}
 	if p := os.Getenv("C03_CORPUS"); p != "" {
 		var err error
 		if s.seeds, err = readCorpus(p); err != nil {
@@ -350,12 +380,7 @@ func errClass(s string) string {
 		s = s[:i]
 	}
 	s = reQuoted.ReplaceAllString(s, `"S"`)
-	s = reBrack.ReplaceAllStringFunc(s, func(m string) string {
-		if strings.ContainsAny(m, "\x00\x01\x02\x03\x04\x05\x06\x07\x08") || len(m) > 40 {
-			return "[S]"
-		}
-		return m
-	})
+	s = reBrack.ReplaceAllString(s, "[S]")
 	s = reHex.ReplaceAllString(s, "H")
 	s = reNum.ReplaceAllString(s, "N")
 	var sb strings.Builder
@@ -369,7 +394,15 @@ func errClass(s string) string {
 	return core.Trunc(sb.String(), 140)
 }
 
-func phaseLine(p string) { fmt.Fprintf(os.Stderr, "C03@ %s\n", p) }
+var procStart = time.Now()
+
+func phaseLine(p string) {
+	if os.Getenv("C03_TRACE") != "" {
+		fmt.Fprintf(os.Stderr, "C03@ %s t=%v\n", p, time.Since(procStart))
+		return
+	}
+	fmt.Fprintf(os.Stderr, "C03@ %s\n", p)
+}
 
 // compileOne runs CompileModule for one combo under the monitors.
 func (s *childState) compileOne(bin []byte, combo int, allocLimit uint64, budget time.Duration) (cm wazero.CompiledModule, errText string, alloc uint64, panicText string) {
@@ -398,12 +431,48 @@ func (s *childState) compileOne(bin []byte, combo int, allocLimit uint64, budget
 	return
 }
 
+// panicSig = <innermost wazero function on the stack>:<panic value without numbers>.
 func panicSig(p string) string {
 	first := p
 	if i := strings.IndexByte(first, '\n'); i >= 0 {
 		first = first[:i]
 	}
-	return strings.ReplaceAll(errClass(first), " ", "_")
+	fn := "?"
+	for _, l := range strings.Split(p, "\n") {
+		if strings.HasPrefix(l, "github.com/tetratelabs/wazero/") && !strings.Contains(l, "verifharness") {
+			l = strings.TrimPrefix(l, "github.com/tetratelabs/wazero/")
+			if i := strings.LastIndexByte(l, '('); i > 0 {
+				l = l[:i]
+			}
+			if i := strings.LastIndexByte(l, '/'); i >= 0 {
+				l = l[i+1:]
+			}
+			fn = l
+			break
+		}
+	}
+	return fn + ":" + strings.ReplaceAll(errClass(first), " ", "_")
+}
+
+// panicInputTag names what the independent walker finds wrong with an input that
+// made CompileModule panic (so that different root causes behind the same Go
+// panic text get different signatures).
+func panicInputTag(bin []byte) string {
+	w := Walk(bin)
+	if !w.Hdr {
+		return "no-header"
+	}
+	nTypes := uint64(len(w.Types))
+	for i := range w.Sites {
+		s := &w.Sites[i]
+		if s.Kind == kTypeIndex && s.Fn < 0 && w.Secs[s.Sec].ID == 3 && s.Val >= nTypes {
+			return "function-section-type-index-out-of-range"
+		}
+	}
+	if !w.Complete {
+		return "malformed-framing"
+	}
+	return "well-framed"
 }
 
 // ---- import stubs ------------------------------------------------------------------
@@ -571,7 +640,7 @@ func (s *childState) execOne(cm wazero.CompiledModule, w *Walked, combo int, r *
 	bg := context.Background()
 	ph := "exec " + comboName(combo)
 	phaseLine(ph)
-	arm(ph, 0, s.caseBudg)
+	arm(ph, 0, s.execBudg)
 	defer disarm()
 	ctx, cancel := context.WithTimeout(bg, s.execDl)
 	defer cancel()
@@ -733,61 +802,105 @@ func child(mode string, in json.RawMessage) any {
 	execRng := core.NewRng(int64(out.Hash), 41)
 	skipExec := false
 	execBoth := [5][2]bool{}
-	for combo := 0; combo < nCombo; combo++ {
+	var cms [nCombo]wazero.CompiledModule
+	defer func() {
+		for _, cm := range cms {
+			if cm != nil {
+				func() {
+					defer func() { recover() }()
+					cm.Close(context.Background())
+				}()
+			}
+		}
+	}()
+	stop := false
+	// compileCombo returns false when the input is decided (allocation violation).
+	compileCombo := func(combo int) {
 		lim := s.bnd.limit(len(bin), combo%2)
 		cm, errText, alloc, pv := s.compileOne(bin, combo, lim, s.caseBudg)
 		out.Alloc[combo] = alloc
-		if pv != "" {
-			out.Findings = append(out.Findings, finding{Sig: "compile:panic:" + engNames[combo%2] + ":" + panicSig(pv), Detail: core.Trunc(pv, 3000), Combo: comboName(combo)})
+		switch {
+		case pv != "":
+			out.Findings = append(out.Findings, finding{Sig: "compile:panic:" + panicSig(pv) + ":" + panicInputTag(bin), Detail: core.Trunc(pv, 3000), Combo: comboName(combo)})
 			s.dropRuntime(combo)
 			out.Acc[combo] = 0
-			continue
-		}
-		if s.bnd.Set && alloc > lim {
-			// the same verdict the sentinel would have reached: stop here
+		case s.bnd.Set && (alloc > lim || (cm == nil && alloc > s.bnd.rejectedLimit(len(bin)))):
+			if alloc <= lim {
+				lim = s.bnd.rejectedLimit(len(bin))
+			}
+			// the same verdict the sentinel would have reached: the input is decided
 			out.AllocViol = true
 			out.Findings = append(out.Findings, finding{Sig: "ALLOC", Detail: fmt.Sprintf("TotalAlloc delta %d > bound %d (A=%.0f B=%.0f, input %d bytes) err=%q", alloc, lim, s.bnd.A[combo%2], s.bnd.B[combo%2], len(bin), core.Trunc(errText, 200)), Combo: comboName(combo)})
 			if cm != nil {
 				cm.Close(context.Background())
 			}
-			break
-		}
-		if cm == nil {
+			stop = true
+			debug.FreeOSMemory() // do not let the next case inherit a full address space
+		case cm == nil:
 			out.Acc[combo] = 0
 			errSet[errClass(errText)] = true
-			continue
+		default:
+			out.Acc[combo] = 1
+			cms[combo] = cm
 		}
-		out.Acc[combo] = 1
-		if !skipExec {
-			if w == nil {
-				w = Walk(bin)
+	}
+	// 1. interpreter engine (decoder + validator + interpreter lowering) under every feature set
+	first, last := -1, -1
+	for fs := 0; fs < 5 && !stop; fs++ {
+		compileCombo(fs * 2)
+		if out.Acc[fs*2] == 1 {
+			if first < 0 {
+				first = fs
 			}
-			switch {
-			case !w.Hdr || !w.TypesOK || !w.ImpOK || !w.SizesOK:
-				out.SkipParse = true
-			case hugeDeclared(w):
-				out.SkipHuge = true
-			default:
-				dl, called := s.execOne(cm, w, combo, execRng, &out)
-				if dl {
-					out.Deadline++
-					skipExec = true // a guest that does not terminate: do not pay the deadline ten times
+			last = fs
+		}
+	}
+	// 2. compiler engine where the (shared) decoder and validator accepted: always under the
+	// smallest and the largest accepting feature set; under every accepting one for
+	// unmutated inputs and for a quarter of the mutants
+	fullCompiler := ic.K == "seed" || ic.K == "wgen" || ic.K == "lim" || out.Hash%4 == 0
+	for fs := 0; fs < 5 && !stop; fs++ {
+		if out.Acc[fs*2] == 1 && (fullCompiler || fs == first || fs == last) {
+			compileCombo(fs*2 + 1)
+		}
+	}
+	// 3. soundness of acceptance: instantiate and call exports under the smallest and the
+	// largest accepting feature set, on both engines
+	if first >= 0 && !stop {
+		w = Walk(bin)
+		switch {
+		case !w.Hdr || !w.TypesOK || !w.ImpOK || !w.SizesOK:
+			out.SkipParse = true
+		case hugeDeclared(w):
+			out.SkipHuge = true
+		default:
+			for fs := first; fs <= last && !skipExec; fs++ {
+				if fs != first && fs != last {
+					continue
 				}
-				if called {
-					execBoth[combo/2][combo%2] = true
+				for e := 0; e < 2 && !skipExec; e++ {
+					combo := fs*2 + e
+					if cms[combo] == nil {
+						continue
+					}
+					dl, called := s.execOne(cms[combo], w, combo, execRng, &out)
+					if dl {
+						out.Deadline++
+						skipExec = true // a guest that does not terminate: do not pay the deadline again
+					}
+					if called {
+						execBoth[fs][e] = true
+					}
 				}
 			}
 		}
-		func() {
-			defer func() { recover() }()
-			cm.Close(context.Background())
-		}()
 	}
 	for _, e := range execBoth {
 		if e[0] && e[1] {
 			out.Executed = true
 		}
 	}
+	phaseLine("done -")
 	for e := range errSet {
 		out.Errs = append(out.Errs, e)
 	}
